@@ -7,7 +7,7 @@ def table(J):
         "C04": [J("TestC04", checks=(6000, 40000), shards=(2, 16), fuzz=("FuzzC04", 120))],
         "C05": [J("TestC05", checks=(8000, 60000), shards=(4, 16), fuzz=("FuzzC05", 120))],
         "C06": [J("TestC06", checks=(8000, 60000), shards=(4, 16))],
-        "C07": [J("TestC07", checks=(40000, 250000), shards=(4, 16), limit=(600, 2400)), J("TestC07Trunc", shards=(4, 16), limit=(600, 2400), fuzz=("FuzzC07Parse", 240)), J("TestC07Stream", race=True, checks=(40, 400), shards=(2, 8), limit=(900, 3000))],
+        "C07": [J("TestC07", checks=(40000, 250000), shards=(4, 16), limit=(600, 2400)), J("TestC07Trunc", shards=(4, 16), limit=(600, 2400), fuzz=("FuzzC07Parse", 240)), J("TestC07Stream", race=True, checks=(40, 400), shards=(2, 8), limit=(900, 3000)), J("TestC07LenSweep", checks=(1200, 20000), shards=(4, 16), limit=(600, 2400))],
         "C08": [J("TestC08", checks=(40000, 400000), shards=(4, 16), limit=(600, 2400)), J("TestC08Sweep", shards=(4, 16), limit=(600, 2400), fuzz=("FuzzC08", 240))],
         "C09": [J("TestC09", checks=(8000, 60000), shards=(3, 16)), J("TestC09Sweep", shards=(5, 5))],
         "C10": [J("TestC10", race=True, checks=(150, 1500), shards=(4, 16), limit=(900, 3000)), J("TestC10Parse", race=True, checks=(60, 600), shards=(2, 8), limit=(900, 3000))],
